@@ -79,16 +79,23 @@ impl Source for MioListener {
         match *self {
             MioListener::Tcp(ref mut lst) => lst.deregister(registry),
             #[cfg(unix)]
-            MioListener::Uds(ref mut lst) => {
-                let res = lst.deregister(registry);
+            MioListener::Uds(ref mut lst) => lst.deregister(registry),
+        }
+    }
+}
 
-                // cleanup file path
-                if let Ok(addr) = lst.local_addr() {
-                    if let Some(path) = addr.as_pathname() {
-                        let _ = std::fs::remove_file(path);
-                    }
+impl MioListener {
+    /// Removes the file of a Unix domain socket listener.
+    ///
+    /// Only to be called once the listener is not going to accept again: a listener that is merely
+    /// deregistered (pause, back-off after an accept error) must stay reachable under its path.
+    pub(crate) fn cleanup(&self) {
+        #[cfg(unix)]
+        if let MioListener::Uds(ref lst) = *self {
+            if let Ok(addr) = lst.local_addr() {
+                if let Some(path) = addr.as_pathname() {
+                    let _ = std::fs::remove_file(path);
                 }
-                res
             }
         }
     }
